@@ -9,7 +9,7 @@ not bound, no import is tried for it and the call reports failure."""
 from . import c06
 
 ANCHORS = c06.ANCHORS
-from .c06 import has_dotted_key, has_star_import, is_attrstore, is_f07a, is_f21  # noqa: F401  (classifiers named in known_findings.d/C07.json)
+from .c06 import has_dotted_key, is_class_later, is_dunder_file, has_star_import, is_attrstore, is_f07a, is_f21  # noqa: F401  (classifiers named in known_findings.d/C07.json)
 
 
 def run(ctx):
